@@ -2,10 +2,9 @@
    following bs4/builder/__init__.py 94-151 and bs4/__init__.py 349-375 statement by statement.
    Builders and features are interned as N by the harness / translator. *)
 From Coq Require Import List NArith Bool.
+From BS Require Import Base.Sexp Base.Types.
 Import ListNotations.
 Open Scope N_scope.
-
-Definition memN (x : N) (l : list N) : bool := existsb (N.eqb x) l.
 
 (* builders_for_feature : defaultdict(list) as an association list *)
 Definition fmap := list (N * list N).
